@@ -64,11 +64,13 @@ def loop_one(dt):
             floop["hfin"] = state_array("h_fold", init[1].shape, init[1].dtype)
             return floop["wfin"], floop["hfin"]
         ifns.for_loop = for_loop
-        mcap = mi if bool(mi <= n) else n
-        CTX.assume(z3.And(k.term >= 0, k.term < mcap.term))
         Ar.arnoldi_fact(A, (Q, H, k, nrm), max_iters=mi, tol=tol, pbar=False)
-        goals.append(("the loop is given the caller's tolerance and the cap min(max_iters, n)", z3.And(SScal.lift(store["winfo_args"]["tol"]).re == tol.re,
-                                                                                                     iterm(store["winfo_args"]["max_iters"]) == mcap.term)))
+        # the cap the loop actually uses (where the clamp to n is applied - here or in the caller - is an implementation choice; the composed
+        # obligation "cap = min(max_iters, n)" is checked on arnoldi() as a whole, see cap_one)
+        mcap = SInt.lift(store["winfo_args"]["max_iters"])
+        CTX.assume(z3.And(k.term >= 0, k.term < mcap.term))
+        goals.append(("the loop is given the caller's tolerance and never more steps than requested", z3.And(SScal.lift(store["winfo_args"]["tol"]).re == tol.re,
+                                                                                                          mcap.term <= mi.term)))
         Q1, H1, k1, n1 = store["body"]((Q, H, k, nrm))
         goals.append(("loop: the Gram-Schmidt loop runs j = 0 .. idx", z3.And(iterm(floop["lo"]) == 0, iterm(floop["hi"]) == k.term + 1)))
         same("loop: it starts from w = A q_idx", floop["init"][0], apply_op(A, col(Q, k)), goals)
@@ -87,7 +89,7 @@ def loop_one(dt):
         cterm = c.term if isinstance(c, SBool) else z3.BoolVal(bool(c))
         re = (lambda t: idx.RE(t)) if dt == "complex" else (lambda t: t)
         large = arr((b,), lambda bb: z3.If(z3.Or(one(nrm, bb) > alg.rmul(tol.re, re(one(H, bb, z3.IntVal(1), z3.IntVal(0)))), k2.term <= 0), z3.RealVal(1), z3.RealVal(0)), np.bool_)
-        goals.append(("stop: continue iff idx < min(max_iters, n) and some column has ||w|| > tol * Re H[1, 0] or idx <= 0", cterm == z3.And(k2.term < mcap.term, kidx._any(large).term)))
+        goals.append(("stop: continue iff idx < cap and some column has ||w|| > tol * Re H[1, 0] or idx <= 0", cterm == z3.And(k2.term < mcap.term, kidx._any(large).term)))
         return goals
     return K.run_paths(f"C15/arnoldi_fact[{dt}]", FN + "arnoldi_fact", thunk, dict(engine="ARNOLDI", part="loop", dtype=dt),
                        extra_backend=dict(while_loop_winfo=K.capture_loop(store)))
@@ -146,8 +148,7 @@ def relation_one(dt):
             fl["hi"] = hi
             return fl["wfin"], fl["hfin"]
         ifns.for_loop = for_loop
-        mcap = mi if bool(mi <= n) else n
-        CTX.assume(z3.And(k.term >= 0, k.term < mcap.term))
+        CTX.assume(z3.And(k.term >= 0, k.term < mi.term))
         Ar.arnoldi_fact(A, (Q, H, k, nrm), max_iters=mi, tol=tol, pbar=False)
         Q1, H1, k1, n1 = store["body"]((Q, H, k, nrm))
         facts = CTX.facts()
@@ -223,7 +224,7 @@ def wrapper_one(dt, capcase):
             Qf = state_array("Qfin", Qi.shape, Qi.dtype)
             Hf = state_array("Hfin", Hi.shape, Hi.dtype)
             kf = SInt(z3.Int(CTX.fresh("idx_final")))
-            CTX.assume(z3.And(kf.term >= 1, kf.term <= iterm(max_iters)))      # exit contract of the loop: 1 <= steps run <= cap
+            CTX.assume(z3.And(kf.term >= 1, kf.term <= iterm(max_iters), kf.term <= iterm(Hi.shape[2])))      # exit contract of the loop: 1 <= steps run <= cap
             rec.update(Qf=Qf, Hf=Hf, kf=kf)
             return Qf, Hf, kf, {}
         old = Ar.arnoldi_fact
@@ -235,18 +236,45 @@ def wrapper_one(dt, capcase):
         goals = []
         goals.append(("the process runs on A with the caller's tolerance", z3.And(z3.BoolVal(rec.get("A") is A), SScal.lift(rec["tol"]).re == tol.re)))
         Q0, H0 = rec["init"][0], rec["init"][1]
-        goals.append(("more than n steps = n steps: buffers have min(max_iters, n) + 1 basis columns and a (min(max_iters, n) + 1) x min(max_iters, n) Hessenberg matrix "
-                      "(no padding that would add spurious zero eigenvalues), of the operator's dtype",
-                      z3.And(iterm(Q0.shape[2]) == mcap.term + 1, iterm(H0.shape[1]) == mcap.term + 1, iterm(H0.shape[2]) == mcap.term,
-                             z3.BoolVal(np.dtype(Q0.dtype) == np.dtype(dtype)), z3.BoolVal(np.dtype(H0.dtype) == np.dtype(dtype)))))
+        goals.append(("the buffers have the operator's dtype", z3.And(z3.BoolVal(np.dtype(Q0.dtype) == np.dtype(dtype)), z3.BoolVal(np.dtype(H0.dtype) == np.dtype(dtype)))))
         kf = rec["kf"]
-        goals.append(("the loop is given the cap min(max_iters, n)", iterm(rec["max_iters"]) == mcap.term))
         same("Q = columns 0..k of the basis buffer (k = steps run; no columns of steps that were not run)", Q.to_dense(),
              arr((n, kf + 1), lambda r, j: one(rec["Qf"], z3.IntVal(0), r, j), dtype), goals)
         same("H = the leading (k+1) x k block of the Hessenberg buffer", H.to_dense(),
              arr((kf + 1, kf), lambda r, j: one(rec["Hf"], z3.IntVal(0), r, j), dtype), goals)
         return goals
     return K.run_paths(f"C15/arnoldi[{dt};{capcase}]", FN + "arnoldi", thunk, dict(engine="ARNOLDI", part="wrapper", dtype=dt, cap=capcase))
+
+
+def cap_one(capcase):
+    """composition arnoldi() -> init_arnoldi + arnoldi_fact (both real): the loop's cap and the buffers are min(max_iters, n)"""
+    from vcgen.rules import sym_dim
+    Ar = importlib.import_module("cola.linalg.decompositions.arnoldi")
+    store = {}
+
+    def thunk():
+        n = sym_dim("n")
+        mi = SInt(z3.Int(CTX.fresh("max_iters")))
+        CTX.assume(mi.term >= 1)
+        CTX.assume(mi.term < n.term if capcase == "cap<n" else mi.term >= n.term)
+        mcap = mi if capcase == "cap<n" else n
+        A, a = idx.make_abstract_op("A", n, n, np.float64)
+        v = IArr.const("v", (n,), np.float64)
+        Ar.arnoldi(A, v, max_iters=mi, tol=SScal(z3.Real(CTX.fresh("tol"))))
+        Q0, H0, k0, n0 = store["init"]
+        cap = SInt.lift(store["winfo_args"]["max_iters"])
+        goals = [("the Arnoldi loop of arnoldi() is capped at exactly min(max_iters, n) steps (m <= n steps are all run; more than n steps = n steps)", cap.term == mcap.term),
+                 ("its buffers hold min(max_iters, n) + 1 basis vectors and a (min(max_iters, n) + 1) x min(max_iters, n) Hessenberg matrix",
+                  z3.And(iterm(Q0.shape[2]) == mcap.term + 1, iterm(H0.shape[1]) == mcap.term + 1, iterm(H0.shape[2]) == mcap.term))]
+        # the stopping rule seen through the composition: continuing implies idx < min(max_iters, n)
+        k2 = SInt(z3.Int(CTX.fresh("idx")))
+        CTX.assume(k2.term >= 0)
+        c = store["cond"]((Q0, H0, k2, n0))
+        cterm = c.term if isinstance(c, SBool) else z3.BoolVal(bool(c))
+        goals.append(("continuing implies idx < min(max_iters, n)", z3.Implies(cterm, k2.term < mcap.term)))
+        return goals
+    return K.run_paths(f"C15/arnoldi composed[{capcase}]", FN + "arnoldi", thunk, dict(engine="ARNOLDI", part="wrapper", dtype="real", cap=capcase),
+                       extra_backend=dict(while_loop_winfo=K.capture_loop(store)))
 
 
 def eigs_one(dt):
@@ -307,13 +335,13 @@ def run(chk):
     chk.assume("the Householder variant (use_householder=True) and batched start vectors (xnp.vmap) are outside the domain")
     tasks = [("loop", "real"), ("loop", "complex"), ("init", "real"), ("init", "complex"), ("init", "mixed"),
              ("wrapper", "real", "cap<n"), ("wrapper", "real", "cap>=n"), ("wrapper", "complex", "cap<n"), ("wrapper", "complex", "cap>=n"),
-             ("eigs", "real"), ("eigs", "complex"), ("relation", "real"), ("relation", "complex")]
+             ("eigs", "real"), ("eigs", "complex"), ("relation", "real"), ("relation", "complex"), ("cap", "cap<n"), ("cap", "cap>=n")]
     for nm in ("arnoldi_fact", "init_arnoldi", "arnoldi", "arnoldi_eigs"):
         chk.under_contract(FN + nm)
 
     def work(j):
         t = tasks[j]
-        return {"loop": loop_one, "init": init_one, "wrapper": wrapper_one, "eigs": eigs_one, "relation": relation_one}[t[0]](*t[1:])
+        return {"loop": loop_one, "init": init_one, "wrapper": wrapper_one, "eigs": eigs_one, "relation": relation_one, "cap": cap_one}[t[0]](*t[1:])
     for obs in pmap(work, len(tasks)):
         for ob in obs:
             chk.add(ob)
